@@ -201,7 +201,7 @@ pub fn fragments(depth2: bool) -> Vec<String> {
         "1 + 2", "-x", "!x", "f(1, 2)", "x.m(1)", "x.f", "x[0]", "|a, b| a + b", "|| 1", "{ 1 }", "[1, 2]", "[]", "[a, 1]", "[-1, 2]", "[1u8, 0x2]", "(1, 2)", "0..5", "..", "..=3", "1..",
         "(x)", "&x", "x as u8", "m!(x)", "if a { 1 } else { 2 }", "a = b", "a && b || c", "x?", "a::b(c)",
         // literals
-        "true", "5", "0x10", "5u8", "1_000", "-3", "-0x10", "-5i8", "-1_000", "1.5", "-2.5f32", "'c'", "b'c'", "b\"x\"",
+        "\"hello\"", "\"a + b\"", "\"a::b\"", "\"\"", "\"\\\"deep\\\"\"", "r\"raw\"", "true", "5", "0x10", "5u8", "1_000", "-3", "-0x10", "-5i8", "-1_000", "1.5", "-2.5f32", "'c'", "b'c'", "b\"x\"",
         // types
         "u8", "Vec<u8>", "&'a str", "&mut T", "[u8; 4]", "fn(u8) -> u8", "(u8, u8)", "()", "!", "_", "*const u8", "[u8]", "dyn Tr + 'a", "impl Tr", "(u8)", "T: Clone", "T",
         // visibility / where
@@ -257,7 +257,9 @@ pub fn check(tg: &Target, frag: &str, t: &mut Tally) {
     };
     let frag_tokens = ts(frag);
     let direct = (tg.direct)(frag);
-    let is_string_fragment = frag.starts_with('"');
+    // a bare string literal is the quoted spelling of its contents (covered from the contents'
+    // side); as a fragment it is only used quoted once more: `v = "\"hello\""`
+    let is_string_fragment = frag.starts_with('"') || frag.starts_with("r\"");
     // bare spelling, alone and inside a list, and inside an invisible group
     let mut bare_results: Vec<(&str, R)> = vec![];
     if !frag.is_empty() && !is_string_fragment && syn::parse_str::<syn::Expr>(frag).is_ok() {
@@ -306,7 +308,7 @@ pub fn check(tg: &Target, frag: &str, t: &mut Tally) {
         }
     }
     // quoted spelling
-    if tg.quoting && !is_string_fragment {
+    if tg.quoting {
         let mut quoted: Vec<(&str, R)> = vec![];
         if let Some(m) = meta_lone(&format!("v = {}", rust_str(frag))) {
             quoted.push(("quoted", (tg.conv)(&m)));
@@ -353,10 +355,28 @@ fn helpers(frags: &[String], t: &mut Tally) {
     use darling::util::parse_expr::{parse_str_literal, preserve_str_literal};
     for f in frags {
         let Ok(e) = syn::parse_str::<syn::Expr>(f) else { continue };
+        let is_string = matches!(e, syn::Expr::Lit(syn::ExprLit { lit: syn::Lit::Str(_), .. }));
         let mut metas = vec![];
-        metas.extend(meta_lone(&format!("v = {f}")));
-        metas.extend(meta_in_list(&format!("v = {f}")));
-        metas.push(group_meta(e));
+        if !is_string {
+            metas.extend(meta_lone(&format!("v = {f}")));
+            metas.extend(meta_in_list(&format!("v = {f}")));
+            metas.push(group_meta(e));
+        }
+        // a macro-forwarded string literal is still a string literal: the preserving helper keeps it
+        {
+            let lit: syn::Expr = syn::parse_str(&rust_str(f)).unwrap();
+            let m = group_meta(lit);
+            t.evaluations += 1;
+            let a = catch(std::panic::AssertUnwindSafe(|| preserve_str_literal(&m).map(|e| e.to_token_stream().to_string().pipe_squash()).map_err(|e| e.to_string())));
+            if a.as_ref().ok().and_then(|r| r.as_ref().ok()) != ts(&rust_str(f)).as_ref() {
+                t.violate(Violation {
+                    key: format!("C13 helpers grouped string fragment=`{f}` :: preserve={a:?}"),
+                    what: format!("`v = {}` forwarded in an invisible group: preserve_str_literal gives {a:?}, expected the string literal kept", rust_str(f)),
+                    case: json!({"fragment": f}),
+                    detail: json!({}),
+                });
+            }
+        }
         for m in metas {
             t.evaluations += 1;
             t.hit("helpers_checked");
